@@ -18,15 +18,17 @@
 // block is gone) meets a new owner.
 //
 // Oracle, evaluated under the store lock at EVERY committed write of a block or block affinity:
-//  a. per block CIDR at most one BlockAffinity object is in state "confirmed";
-//  b. if the block exists and records Affinity "T:h", every confirmed affinity of that CIDR is T:h;
-//  c. with StrictAffinity, a write that adds an allocation to a block was made on behalf of the
-//     host recorded in that block's Affinity (a pending claim on somebody else's block was not
-//     used as ownership);
-//  d. an operation that requires the block to be empty (AutoAssign's internal releases and
-//     reclaim, ReleaseAffinity/ReleaseHostAffinities with mustBeEmpty, the post-release affinity
-//     clean-up) gives a block up (deletes it, or clears its Affinity) only if the revision it
-//     replaces holds no live allocation (other than ones this operation itself was asked to free).
+//
+//	a. per block CIDR at most one BlockAffinity object is in state "confirmed";
+//	b. if the block exists and records Affinity "T:h", every confirmed affinity of that CIDR is T:h;
+//	c. with StrictAffinity, a write that adds an allocation to a block was made on behalf of the
+//	   host recorded in that block's Affinity (a pending claim on somebody else's block was not
+//	   used as ownership);
+//	d. an operation that requires the block to be empty (AutoAssign's internal releases and
+//	   reclaim, ReleaseAffinity/ReleaseHostAffinities with mustBeEmpty, the post-release affinity
+//	   clean-up) gives a block up (deletes it, or clears its Affinity) only if the revision it
+//	   replaces holds no live allocation (other than ones this operation itself was asked to free).
+//
 // Also the structural block check of C19 (cheap), and panics.
 //
 // Deliberately not checked:
